@@ -27,7 +27,11 @@ THEOREMS = [
     "exit_total_pos",
     "start_state_independent",
     "start_draw_map",
+    "start_slot_bijection",
     "start_uniform",
+    "old_start_draw_map",
+    "old_start_op_uniform",
+    "old_start_rule_not_leg_uniform",
     "loop_empty",
     "loopUpdate_pres_partial",
     "vertex_visit",
@@ -41,6 +45,12 @@ THEOREMS = [
     "loop_closed_iff_script_sufficed",
     "loop_out_of_fuel",
     "loop_head_exists",
+    "loop_reverse_start_prob_eq",
+    "loop_trace_is_path",
+    "link_symmetric",
+    "loop_path_balance",
+    "loop_reverse_is_loop",
+    "loop_path_balance_retraced",
     "reach_flags",
     "cluster_gate",
     "offset_bookkeeping",
@@ -61,7 +71,12 @@ RULE = ("generic samplers over four interaction families (two-site exchange-type
         "constant) with dyadic entries, offset and non-offset constructors, heat bath on/off, six betas; every loop update of the "
         "real sampler is replayed by the Lean model from the recorded draws (state + operator string + draw count); exit-leg "
         "thresholds are measured by bisection of the gen_range(0.0..total) draw for every entrance leg of every positive matrix "
-        "element; start draws include the boundary words of both uniform maps; flags/offset/energy on perturbed call lists "
+        "element; start mode: hand-built strings mixing arities 1/2/3 (also single-arity and single-op strings), random word pairs plus, for "
+        "every slot a of the single U(sum k) draw, the first word mapped to a, the word before it and the last accepted word mapped to a, "
+        "side words incl. 2^63 and 2^63-1; one startmap summary per string (real code probed for every a; oracle: chain-order bijection onto "
+        "the (position, relative variable) pairs; model prints the same list); the fixed F22 witness systems (2-site exchange bond + 1-site "
+        "diagonal term, and the same with a 3-variable table) always run in traj (6 runs x 40 steps) and gate; "
+        "flags/offset/energy on perturbed call lists "
         "(rejected calls, broken symmetry, missing constant term); timestep vs the four public sub-calls on deep clones. "
         "Non-trivial = the loop changed the configuration or visited >= 2 vertices / a free variable exists / exactly one "
         "composition matches / at least one call accepted; distinct = distinct input line. "
